@@ -39,6 +39,7 @@ func checkC18(c *Ctx) {
 	c.commitAfterUse()
 	c.globalsGuarded()
 	c.storedRetainedImmutable()
+	c.retainedStoredClean()
 	c.cloneBeforeMutate()
 	c.retentionFresh("sessions", "AckMsg", map[string]string{"OnComplete": "the completion callback is meant to be retained"})
 	c.retentionFresh("topics", "rnode", map[string]string{})
